@@ -20,7 +20,7 @@ def hexPairs (s : String) : Option (List (Bytes × Bytes)) :=
     | [k, v] => (match hexDecode k, hexDecode v with | some k, some v => some (k, v) | _, _ => none)
     | _ => none))
 
-inductive Edit | write (p c : Bytes) | delete (p : Bytes)
+inductive Edit | write (p c : Bytes) | delete (p : Bytes) | append (p c : Bytes) | rename (a b : Bytes) | remove (p : Bytes)
 
 /-- a build configuration of the case: the model's view plus what only the snapshot oracle needs -/
 structure BCase where
@@ -36,6 +36,13 @@ def parseEdit (s : String) : Option Edit :=
     | [p, c] => (match hexDecode p, hexDecode c with | some p, some c => some (.write p c) | _, _ => none)
     | _ => none)
   | 'd' :: r => (hexDecode (String.ofList r)).map .delete
+  | 'x' :: r => (hexDecode (String.ofList r)).map .remove
+  | 'a' :: r => (match (String.ofList r).splitOn ":" with
+    | [p, c] => (match hexDecode p, hexDecode c with | some p, some c => some (.append p c) | _, _ => none)
+    | _ => none)
+  | 'r' :: r => (match (String.ofList r).splitOn ":" with
+    | [a, b] => (match hexDecode a, hexDecode b with | some a, some b => some (.rename a b) | _, _ => none)
+    | _ => none)
   | _ => none
 
 def parseBCfg (s : String) : Option BCase :=
@@ -95,13 +102,16 @@ def parseCActs : Nat → List String → Option (List CAct × List String)
     | none => none
     | some (a, r) => (parseCActs n r).map (fun (as, r') => (a :: as, r'))
 
-/-- `n` acts; a trailing `R,i,m` is returned as the continuation of the chain -/
-def parseActs (ccfgs : List ContainerConfig) : Nat → List String → Option (List Act × Option (Nat × Nat) × List String)
+/-- `n` acts; a trailing `R,i,m` (fresh config `i`) or `RC,i,m` (the context's config, overlaid with config `i`) is
+returned as the continuation of the chain: (from the context?, i, m) -/
+def parseActs (ccfgs : List ContainerConfig) : Nat → List String → Option (List Act × Option (Bool × Nat × Nat) × List String)
   | 0, toks => some ([], none, toks)
   | n + 1, toks =>
     match toks with
     | "R" :: i :: m :: r =>
-      if n = 0 then (match i.toNat?, m.toNat? with | some i, some m => some ([], some (i, m), r) | _, _ => none) else none
+      if n = 0 then (match i.toNat?, m.toNat? with | some i, some m => some ([], some (false, i, m), r) | _, _ => none) else none
+    | "RC" :: i :: m :: r =>
+      if n = 0 then (match i.toNat?, m.toNat? with | some i, some m => some ([], some (true, i, m), r) | _, _ => none) else none
     | _ =>
       let one : Option (Act × List String) :=
         match toks with
@@ -120,19 +130,31 @@ def parseActs (ccfgs : List ContainerConfig) : Nat → List String → Option (L
       | none => none
       | some (a, r) => (parseActs ccfgs n r).map (fun (as, k, r') => (a :: as, k, r'))
 
-def parseChain (bcfgs : List BCase) (ccfgs : List ContainerConfig) : Nat → Nat → Nat → List String → Option (List (BCase × List Act))
+/-- The configuration of a rebuild in the scenario language. `R,i`: the fresh configuration `i`. `RC,i`: the configuration
+the enclosing build was given (what `TestContext.config` is documented to be), with the env pairs of `i` set after the clone
+and the expected/actual pack result of `i`; app dir, preprocessor, builder, buildpacks, target are inherited. -/
+def nextCfg (cur ov : BCase) (fromCtx : Bool) : BCase :=
+  if fromCtx then
+    { cur with cfg := { cur.cfg with cfg := { cur.cfg.cfg with env := cur.cfg.cfg.env ++ ov.cfg.cfg.env },
+                                     expectSuccess := ov.cfg.expectSuccess, packResult := ov.cfg.packResult } }
+  else ov
+
+def parseChain (bcfgs : List BCase) (ccfgs : List ContainerConfig) : Nat → BCase → Nat → List String → Option (List (BCase × List Act))
   | 0, _, _, _ => none
-  | fuel + 1, i, n, toks =>
-    match bcfgs[i]?, parseActs ccfgs n toks with
-    | some b, some (acts, none, []) => some [(b, acts)]
-    | some b, some (acts, some (i', m), r) => (parseChain bcfgs ccfgs fuel i' m r).map (fun rest => (b, acts) :: rest)
-    | _, _ => none
+  | fuel + 1, b, n, toks =>
+    match parseActs ccfgs n toks with
+    | some (acts, none, []) => some [(b, acts)]
+    | some (acts, some (fromCtx, i', m), r) =>
+      (match bcfgs[i']? with
+      | some ov => (parseChain bcfgs ccfgs fuel (nextCfg b ov fromCtx) m r).map (fun rest => (b, acts) :: rest)
+      | none => none)
+    | _ => none
 
 def parseTree (bcfgs : List BCase) (ccfgs : List ContainerConfig) (s : String) : Option (List (BCase × List Act)) :=
   match s.splitOn "," with
   | "B" :: i :: n :: r =>
     (match i.toNat?, n.toNat? with
-    | some i, some n => parseChain bcfgs ccfgs (r.length + 2) i n r
+    | some i, some n => (bcfgs[i]?).bind (fun b => parseChain bcfgs ccfgs (r.length + 2) b n r)
     | _, _ => none)
   | _ => none
 
@@ -232,6 +254,14 @@ def applyEdits (fx : List (Bytes × Bytes)) : List Edit → List (Bytes × Bytes
   | [] => fx
   | .write p c :: r => applyEdits ((fx.filter (fun kv => kv.1 != p)) ++ [(p, c)]) r
   | .delete p :: r => applyEdits (fx.filter (fun kv => kv.1 != p)) r
+  | .remove p :: r => applyEdits (fx.filter (fun kv => kv.1 != p)) r
+  | .append p c :: r =>
+    let old := match fx.find? (fun kv => kv.1 == p) with | some kv => kv.2 | none => []
+    applyEdits ((fx.filter (fun kv => kv.1 != p)) ++ [(p, old ++ c)]) r
+  | .rename a b :: r =>
+    match fx.find? (fun kv => kv.1 == a) with
+    | some kv => applyEdits ((fx.filter (fun kv => kv.1 != a && kv.1 != b)) ++ [(b, kv.2)]) r
+    | none => applyEdits fx r
 
 def renderSnap (fx : List (Bytes × Bytes)) : String :=
   if fx.isEmpty then "empty"
